@@ -56,6 +56,7 @@ type HarnessResult struct {
 	Wall         time.Duration
 	Queries      int
 	MaxStepsSeen int
+	Reports      []string
 }
 
 type worker struct {
@@ -120,6 +121,7 @@ func (w *worker) runPath(prefix []decision) (res PathResult, pending [][]decisio
 	i.killThreads()
 	res.Known = ex.known
 	res.EngineOnly = ex.engineOnly
+	res.Reports = ex.reports
 	if len(i.threads) > 1 && (i.cfg.SpawnDeferred || i.cfg.Interleave) && res.EngineOnly == "" && res.Kind != oOK {
 		res.EngineOnly = "schedule-dependent: goroutines of the code under test were scheduled by the engine (deferred / interleaving mode)"
 	}
@@ -265,6 +267,7 @@ func RunHarness(prog *ssa.Program, fn *ssa.Function, cfg *HarnessConfig) *Harnes
 					hr.Caveats[c] = true
 				}
 				if res.Kind == oOK {
+					hr.Reports = append(hr.Reports, res.Reports...)
 					for _, r := range res.Reached {
 						hr.Reached[r]++
 					}
